@@ -53,7 +53,9 @@ def cluster(md, rng):
     nres = rng.randrange(5, 10)
     unit = lambda: (lambda v: v / np.linalg.norm(v))(np.array([rng.gauss(0, 1) for _ in range(3)]))
     for ri in range(nres):
-        r = top.add_residue(rng.choice(["ALA", "GLY", "SER", "ALA", "PRO"]), ch, ri + 1)
+        # the backbone decides, not the residue name: protonation / disulfide / terminal names of force fields (HIE, CYX, ASH, NALA) and
+        # peptide-like ligands are not in mdtraj's amino-acid table
+        r = top.add_residue(rng.choice(["ALA", "GLY", "SER", "ALA", "PRO", "HIE", "CYX", "ASH", "NALA", "LIG"]), ch, ri + 1)
         c0 = unit() * rng.uniform(0.0, 0.42)
         n_ = c0 + unit() * 0.12
         atoms = {}
